@@ -498,3 +498,22 @@ def api(rng, case, idx):
                     M.violate(['C14'], 'PARSE', f'C14:non_volume_capacity_accepted:{entry}', {'string': s, 'entry': entry})
                 except Exception:
                     pass
+
+
+# --------------------------------------------------------------------------------------------------
+# directed edge workloads shared between several checks (pv/edges.py)
+
+_plan_without_edges, _run_job_without_edges = plan, run_job
+
+
+def plan(tier, seed):
+    from .common import edges_jobs
+    return _plan_without_edges(tier, seed) + edges_jobs(tier)
+
+
+def run_job(job):
+    if job['kind'] == 'edges':
+        from pv.edges import edges
+        from .common import run_cases
+        return run_cases(job, edges)
+    return _run_job_without_edges(job)
